@@ -254,6 +254,24 @@ Theorem set_reference_is_a_set : forall ref vs v,
 Proof. intros ref vs v. split; [apply C19_DsSet.ref_add_in|split]; [apply C19_DsSet.ref_without_in|apply C19_DsSet.ref_add_prefix]. Qed.
 Print Assumptions set_reference_is_a_set.
 
+(* persistent use (Added / Without / Diff return NEW sets, the old ones stay in use): for every history over a pool of set
+   values, every member lists exactly its own first-insertion-order reference at every moment, whatever was derived from it
+   or from its siblings *)
+Theorem set_pool_semantics : forall ops : list pop_,
+  let pool := fold_left pstep ops [] in
+  let rpool := fold_left prstep ops [] in
+  map set_slice pool = rpool /\
+  forall i s, nth_error pool i = Some s ->
+    NoDup (set_slice s) /\ (forall v, set_has v s = true <-> In v (set_slice s)) /\ set_size s = length (set_slice s).
+Proof. exact set_pool_history. Qed.
+Print Assumptions set_pool_semantics.
+
+(* deriving a set never changes an existing set value (only the in-place Add changes the set it is called on) *)
+Theorem set_values_immutable : forall pool o i s,
+  (forall k vs, o <> PoAddInPlace k vs) -> nth_error pool i = Some s -> nth_error (pstep pool o) i = Some s.
+Proof. exact set_values_immutable_gen. Qed.
+Print Assumptions set_values_immutable.
+
 (* ================= sorted map ================= *)
 (* after any sequence of Set / Delete / ordered reads: All/Keys/Values list the sorted association-list reference,
    Get is its lookup, Set/Delete report novelty/presence, iteration is strictly increasing in the key *)
